@@ -382,7 +382,7 @@ MODEL_CALLS = {"cancel", "workerCtxCancel", "schedulesCtxCancel", "runFunction",
                "Sleep", "After", "AfterFunc", "Until", "WithTimeout", "WithDeadline", "WithCancel", "panic", "recover", "Goexit"}
 NOT_RESOLVED = LOCK_LIKE | {"Add", "Load", "Store", "Swap", "CompareAndSwap", "Done", "Err", "Stop", "Start", "Reset", "Run",
                             "close", "cancel", "NewTicker", "NewTimer", "Record", "Update", "Snapshot",
-                            "Sleep", "After", "AfterFunc", "Until", "WithTimeout", "WithDeadline", "WithCancel", "panic", "recover", "Goexit"}
+                            "Sleep", "After", "AfterFunc", "Until", "WithTimeout", "WithDeadline", "WithCancel", "panic", "recover", "Goexit", "Do"}
 
 
 def _canon_expr(e):
@@ -421,7 +421,9 @@ def flatten_syncops(raw, declared=None):
             plain = [k for k in cands if "." not in k.split("::", 1)[1]]
             return plain[0] if len(plain) == 1 else None   # a package-level function called by its name
         if segs[0] != "@":
-            return None   # a call through a local variable or a package: not resolved
+            # a call through a local variable, a parameter or a package: resolved only when exactly one
+            # function of the package has that name (names shared with sync / time / context never are)
+            return cands[0] if len(cands) == 1 else None
         base = fn
         for suf in (".go", ".func"):
             while base.endswith(suf):
@@ -479,7 +481,6 @@ def flatten_syncops(raw, declared=None):
             segs = op.split(".")
             pkg = _pkg_of(key)
             if segs[-1] in declared.get(pkg, ()) and segs[-1] not in NOT_RESOLVED and segs[-1] not in MODEL_CALLS \
-                    and (segs[0] == "@" or len(segs) == 1) \
                     and not by_pkg.get(pkg, {}).get(segs[-1]):
                 continue   # a helper of the package that performs no synchronisation itself
             tok = ".".join(segs[-2:]) if segs[-1] in LOCK_LIKE and len(segs) >= 2 else segs[-1]
